@@ -606,7 +606,8 @@ def build_ugrid(r: dict) -> Built:
     if enc.get('pad', 0):
         maxn += enc['pad']
     uniform = all(len(f) == maxn for f in faces)
-    if fill == 'none' and not uniform:
+    if fill == 'none' and (not uniform or tables & {'edge_face', 'face_face'}):
+        # boundary edges / faces with fewer neighbours need missing entries
         fill = 'nan'
     FILL = 999999
     names = r.get('names', {})
